@@ -589,7 +589,7 @@ def precise_fault(o, ev):
     if m:
         o["fault"], o["fa"], o["fb"] = m.group(1), int(m.group(2)), 0
         return o
-    if f in ("sink:nullbuf", "sink:flags") or f.startswith("sink:width:"):
+    if f in ("sink:nullbuf", "sink:flags") or f.startswith("sink:width:") or f.startswith("sink:maskon:"):
         return o   # only reachable through sinkeach: keep the enumerating fault in the replay
     m = re.match(r"^sink:(-?\d+):(\d+):(\d+)$", f)
     if m:
